@@ -82,6 +82,10 @@ type WAL struct {
 	// waits on the close before acquiring the lock and continuing.
 	triggerRotate chan uint64
 	awaitRotate   chan struct{}
+
+	// failed is set (under writeMu) when a metadata update was committed to the
+	// metaDB but could not be completed in memory. See mutateStateLocked.
+	failed error
 }
 
 type walOpt func(*WAL)
@@ -316,6 +320,12 @@ func (w *WAL) mutateStateLocked(tx stateTxn) error {
 
 	if postCommit != nil {
 		if err := postCommit(); err != nil {
+			// The new metadata is already durable but we couldn't create the segment
+			// file it refers to, so the in-memory state (which we leave unchanged)
+			// no longer matches what a restart will recover. Appending to the old
+			// tail now could acknowledge entries in a segment the metaDB no longer
+			// lists. Refuse further writes; Open recovers from exactly this state.
+			w.failed = err
 			return err
 		}
 	}
@@ -436,6 +446,10 @@ func (w *WAL) StoreLogs(logs []*raft.Log) error {
 	}
 	defer release()
 
+	if w.failed != nil {
+		return fmt.Errorf("WAL must be re-opened after a failed metadata update: %w", w.failed)
+	}
+
 	// Verify monotonicity since we assume it
 	lastIdx := s.lastIndex()
 
@@ -545,6 +559,10 @@ func (w *WAL) DeleteRange(min uint64, max uint64) error {
 		return err
 	}
 	defer release()
+
+	if w.failed != nil {
+		return fmt.Errorf("WAL must be re-opened after a failed metadata update: %w", w.failed)
+	}
 
 	// Work out what type of truncation this is.
 	first, last := s.firstIndex(), s.lastIndex()
